@@ -33,6 +33,7 @@ import (
 	dto "github.com/prometheus/client_model/go"
 	"github.com/prometheus/common/expfmt"
 	"github.com/prometheus/common/model"
+	"google.golang.org/protobuf/proto"
 
 	"verifharness/internal/cli"
 	"verifharness/internal/emit"
@@ -103,10 +104,10 @@ func (c *specCollector) Collect(ch chan<- prometheus.Metric) {
 }
 
 var nameRoots = []string{"m", "http_requests_total", "go:info", "A9_z", "x", "process_cpu_seconds", "_lead", "Zed", "a:b:c", "queue_depth"}
-var utf8Roots = []string{"dotted.name", "uni_cödé", "with-dash"}
+var utf8Roots = []string{"dotted.name", "uni_cödé", "with-dash", "http.requests", "svc-latency.ms", "température", "a.b-c d"}
 var helpPool = []string{"", "", "plain help", "with \\ backslash", "quote \" inside", "new\nline", "tab\there", "unicode ü€", "#hash", "a  b", "ends with backslash \\", "\\n literal", "trailing space ", "x", "HELP TYPE # {} = ,"}
 var labelNamePool = []string{"l", "code", "method", "a_b", "L9", "_x", "zone", "k"}
-var utf8LabelNames = []string{"l.dot", "sp ace", "üml"}
+var utf8LabelNames = []string{"l.dot", "sp ace", "üml", "status.code", "dash-ed", "k8s.pod/name"}
 var labelValuePool = []string{"", "v", "with\\back", "q\"uote", "new\nline", "ünï", "{}", "a,b", "a=b", " spaces ", "#", "\\n", "\"", "\\", "200", "GET", "le", "+Inf", "x y z", "tab\t"}
 
 func pickFloat(r *emit.Rng) float64 {
@@ -131,7 +132,8 @@ func genRegistry(r *emit.Rng, idx int) regSpec {
 	for i := 0; i < nf; i++ {
 		var f famSpec
 		root := nameRoots[r.Intn(len(nameRoots))]
-		if r.Chance(1, 30) {
+		forceUTF8 := idx%4 == 3 // every fourth registry is dominated by UTF-8 (quoted) names
+		if r.Chance(1, 30) || (forceUTF8 && (i == 0 || r.Bool())) {
 			root = utf8Roots[r.Intn(len(utf8Roots))]
 			rs.utf8 = true
 		}
@@ -142,7 +144,7 @@ func genRegistry(r *emit.Rng, idx int) regSpec {
 		used := map[string]bool{}
 		for j := 0; j < nl; j++ {
 			ln := labelNamePool[r.Intn(len(labelNamePool))]
-			if r.Chance(1, 60) {
+			if r.Chance(1, 60) || (forceUTF8 && r.Bool()) {
 				ln = utf8LabelNames[r.Intn(len(utf8LabelNames))]
 				rs.utf8 = true
 			}
@@ -559,12 +561,13 @@ const (
 	pWhitespace
 	pGarbage
 	pBoundNeutral
+	pNameEscape
 	nKinds
 )
 
 var kindNames = []string{"identity", "sample-name", "help-name", "type-name", "type", "help", "label-name", "label-value", "value",
 	"value-neutral", "timestamp", "bucket-bound", "bucket-count", "quantile", "quantile-value", "sum-count", "drop-line", "dup-line",
-	"swap-lines", "whitespace-neutral", "garbage-line", "bound-neutral"}
+	"swap-lines", "whitespace-neutral", "garbage-line", "bound-neutral", "name-escape"}
 
 type perturb struct {
 	kind int
@@ -946,6 +949,105 @@ func allPerturbations(text string, famNames []string) []perturb {
 	return out
 }
 
+// escapeVariants: names that differ from name only where an escaping scheme would write '_':
+// every non-legacy character replaced by '_' (all of them, only the first), and the reverse
+// direction (the first / last '_' replaced by '.', '-' or a non-ASCII letter).
+func escapeVariants(name string) []string {
+	var out []string
+	add := func(s string) {
+		if s != name && s != "" {
+			for _, o := range out {
+				if o == s {
+					return
+				}
+			}
+			out = append(out, s)
+		}
+	}
+	legacy := func(i int, c rune) bool {
+		return c == '_' || c == ':' || (c >= 'a' && c <= 'z') || (c >= 'A' && c <= 'Z') || (i > 0 && c >= '0' && c <= '9')
+	}
+	all := []rune(name)
+	first := []rune(name)
+	done := false
+	for i, c := range []rune(name) {
+		if !legacy(i, c) {
+			all[i] = '_'
+			if !done {
+				first[i] = '_'
+				done = true
+			}
+		}
+	}
+	add(string(all))
+	add(string(first))
+	if i := strings.IndexByte(name, '_'); i >= 0 {
+		add(name[:i] + "." + name[i+1:])
+		add(name[:i] + "-" + name[i+1:])
+	}
+	if i := strings.LastIndexByte(name, '_'); i >= 0 {
+		add(name[:i] + "é" + name[i+1:])
+	}
+	return out
+}
+
+// escapePerturbations renames one metric family (in all of its lines) or one label name (in one
+// child, and in all children) and writes the result with the NoEscaping text encoder, which quotes
+// names as needed.
+func escapePerturbations(c *regCtx) []perturb {
+	var out []perturb
+	render := func(fam string, edit func(mf *dto.MetricFamily)) {
+		var mfs []*dto.MetricFamily
+		for _, mf := range c.norm0 {
+			if mf.GetName() == fam {
+				mf = proto.Clone(mf).(*dto.MetricFamily)
+				edit(mf)
+			}
+			mfs = append(mfs, mf)
+		}
+		if t, err := encodeAll(mfs); err == nil && t != c.text0 {
+			out = append(out, perturb{pNameEscape, fam, t})
+		}
+	}
+	for _, mf := range c.norm0 {
+		fam := mf.GetName()
+		for _, v := range escapeVariants(fam) {
+			v := v
+			render(fam, func(m *dto.MetricFamily) { m.Name = proto.String(v) })
+		}
+		seen := map[string]bool{}
+		for _, m := range mf.Metric {
+			for _, l := range m.Label {
+				ln := l.GetName()
+				if seen[ln] {
+					continue
+				}
+				seen[ln] = true
+				for _, v := range escapeVariants(ln) {
+					v := v
+					render(fam, func(m *dto.MetricFamily) { // every child
+						for _, x := range m.Metric {
+							for _, y := range x.Label {
+								if y.GetName() == ln {
+									y.Name = proto.String(v)
+								}
+							}
+						}
+					})
+					render(fam, func(m *dto.MetricFamily) { // the first child only
+						for _, y := range m.Metric[0].Label {
+							if y.GetName() == ln {
+								y.Name = proto.String(v)
+							}
+						}
+					})
+				}
+			}
+		}
+	}
+	return out
+}
+
 // sample keeps at most limit perturbations, round-robin over the kinds so that every kind present survives.
 func sample(r *emit.Rng, ps []perturb, limit int) []perturb {
 	if len(ps) <= limit {
@@ -1219,6 +1321,16 @@ func (w *world) compareStream(dir string, scale int, regs []*regCtx) error {
 			mode := (k / 4) % nNameModes
 			if w.r.Chance(1, 3) {
 				mode = []int{0, 1, 2}[w.r.Intn(3)] // the modes in which the perturbation is visible
+			}
+			k++
+			w.compareCase(out, c, helper, p, mode, proj0)
+		}
+		// names that differ only in characters which name escaping maps to '_' (never sampled away)
+		for _, p := range escapePerturbations(c) {
+			helper := k % 4
+			mode := 0 // a renamed family is only visible without a name filter
+			if w.r.Chance(1, 4) {
+				mode = 1 + w.r.Intn(nNameModes-1)
 			}
 			k++
 			w.compareCase(out, c, helper, p, mode, proj0)
@@ -1547,7 +1659,7 @@ func (w *world) toFloatStream(dir string, scale int) error {
 			}
 			c, tag = gv, fmt.Sprintf("gauge-vec-%d-children", k)
 			if k == 1 {
-				val(v)
+				val(v + float64(0)) // what was Set: -0 + 0 = +0
 			}
 		case 7:
 			cv := prometheus.NewCounterVec(prometheus.CounterOpts{Name: "cv", Help: "h"}, []string{"l"})
